@@ -8,7 +8,7 @@
 
 use std::alloc::{GlobalAlloc, Layout, System};
 use std::cell::Cell;
-use std::sync::atomic::{AtomicBool, AtomicUsize, Ordering};
+use std::sync::atomic::{AtomicBool, AtomicU32, AtomicUsize, Ordering};
 
 pub const GUARD: usize = 64;
 pub const MAX_ARENAS: usize = 16;
@@ -351,7 +351,8 @@ unsafe fn attributed_alloc(cur: u32, layout: Layout) -> *mut u8 {
             ((mix64(seed ^ ((pkey as u64) << 40) ^ (k as u64).wrapping_mul(0x9e3779b97f4a7c15)) % slots) as usize) * align
         }
     };
-    let raw_size = size + 2 * GUARD + 2 * w;
+    // whole pages, so that a block given back can be made inaccessible until the case ends (see attributed_dealloc)
+    let raw_size = (size + 2 * GUARD + 2 * w + 4095) & !4095;
     let raw_layout = Layout::from_size_align_unchecked(raw_size, 4096);
     drop(st);
     let raw = System.alloc(raw_layout) as usize;
@@ -403,6 +404,11 @@ unsafe fn attributed_dealloc(cur: u32, addr: usize, layout: Layout) -> bool {
             st.push_ev(Event { kind: EvKind::Free, arena: r.arena, by: cur, addr, size: r.size, align: r.align, seq: r.seq });
             drop(st);
             fill(r.base, r.size, FREED_BYTE);
+            // quarantine: from now until the end of the case any access to the block - a read as much as a write, by the
+            // arena or through a reference that outlived it - is a fault (the worker dies, the death reproduces on replay)
+            if protect_freed() {
+                libc::mprotect(r.raw as *mut libc::c_void, r.raw_size, libc::PROT_NONE);
+            }
             return true;
         }
     }
@@ -431,6 +437,20 @@ pub struct Block {
     pub live: bool,
 }
 
+/// quarantined blocks are made inaccessible (mprotect) unless VERIF_NO_PROTECT is set (then they are only poisoned)
+pub fn protect_freed() -> bool {
+    static P: AtomicU32 = AtomicU32::new(0);
+    match P.load(Ordering::Relaxed) {
+        1 => true,
+        2 => false,
+        _ => {
+            let on = unsafe { libc::getenv(b"VERIF_NO_PROTECT\0".as_ptr() as *const libc::c_char).is_null() };
+            P.store(if on { 1 } else { 2 }, Ordering::Relaxed);
+            on
+        }
+    }
+}
+
 pub fn begin_case(seed: u64) {
     end_case();
     let mut st = lock();
@@ -452,7 +472,12 @@ pub fn end_case() -> usize {
             live += 1;
         }
         if r.state != 0 {
-            unsafe { System.dealloc(r.raw as *mut u8, Layout::from_size_align_unchecked(r.raw_size, 4096)) };
+            unsafe {
+                if r.state == 2 && protect_freed() {
+                    libc::mprotect(r.raw as *mut libc::c_void, r.raw_size, libc::PROT_READ | libc::PROT_WRITE);
+                }
+                System.dealloc(r.raw as *mut u8, Layout::from_size_align_unchecked(r.raw_size, 4096))
+            };
         }
         st.recs[i] = REC0;
     }
@@ -566,7 +591,8 @@ pub fn check_integrity(with_quarantine: bool) -> Option<(u32, String)> {
     {
         let st = lock();
         for r in st.recs[..st.n_recs].iter() {
-            if r.state == 0 {
+            if r.state == 0 || (r.state == 2 && protect_freed()) {
+                // (a quarantined block is inaccessible: a stray write faults instead of changing the poison)
                 continue;
             }
             unsafe {
